@@ -92,7 +92,7 @@ DocAlign(T, ref, mode) ==
 \* ---- one operation: outcome and new denoted trajectory
 Res(out, T) == [out |-> out, T |-> T]
 Apply(T, ref, op) ==
-  CASE op.name \in {"ReadPos", "ReadQuat", "ReadSe3", "DeepCopy"} -> Res("ok", T)
+  CASE op.name \in {"ReadPos", "ReadQuat", "ReadSe3", "ReadDerived", "DeepCopy"} -> Res("ok", T)
     [] op.name = "TransformL" -> Res("ok", DocTransformL(T, op.g, op.s))
     [] op.name = "TransformR" -> Res("ok", DocTransformR(T, op.g))
     [] op.name = "TransformProp" -> Res("ok", DocTransformProp(T, op.g))
@@ -130,6 +130,8 @@ ReadVerdict(T, op, obs) ==
     [] op.name = "ReadQuat" -> IF RotMatches(obs.rotq, T) THEN "ok" ELSE "QuaternionsDisagree"
     [] op.name = "ReadSe3" -> IF obs.posm = PosView(T) /\ RotMatches(obs.rotm, T) THEN "ok" ELSE "PoseMatricesDisagree"
     [] op.name = "Project" -> IF obs.planar THEN "ok" ELSE "NotInPlaneAfterProjection"
+    \* derived quantities read in the middle of a history (accumulated distances, path length) follow from the current poses
+    [] op.name = "ReadDerived" -> IF obs.d2 # D2View(T) THEN "DistancesDisagree" ELSE IF ~obs.plen THEN "PathLengthDisagrees" ELSE "ok"
     [] OTHER -> "ok"
 FinalVerdict(T, obs) ==
   IF obs.n # N(T) THEN "CountWrong"
